@@ -140,7 +140,7 @@ def run(ctx):
         decode.run_decode(ctx, gen_cases(ctx, k, depth), judge)
         done += k
     # the same stream with every annotation wrapped in Annotated / NewType / TypeAliasType
-    for mode in (True, "newtype", "typealias"):
+    for mode in S.WRAP_MODES:
         if ctx.time_left() > 30:
             decode.run_decode(ctx, gen_cases(ctx, 400 if ctx.tier == "quick" else 5000, depth), judge, annot=mode)
     # inherited members over class graphs (shared with C07): MissingField must name the first
